@@ -13,8 +13,9 @@ import (
 )
 
 const (
-	cpuBoundMs   = 5000              // the code claims a 1 s deadline; 5x slack, on CPU time
-	killCPUMs    = 5500              // a running script is killed once it has consumed this much CPU (verdict: over bound)
+	cpuBoundMs   = 10000             // the code claims a 1 s deadline; 10x slack, on CPU time (scripts that stop at the deadline but then spend 3-5 s unwinding a huge stack stay well inside on a loaded machine)
+	killCPUMs    = 10500             // a running script is killed once it has consumed this much CPU (verdict: over bound)
+	slowMs       = 2000              // above this and within the bound: recorded as an observation, never a verdict
 	wallKill     = 60 * time.Second  // safety net only: no CPU progress of the running script for this long (blocked, not computing)
 	wallCap      = 15 * time.Minute  // absolute cap per script (a machine loaded so heavily makes the run inconclusive)
 	helloTimeout = 60 * time.Second  // child start-up
